@@ -328,8 +328,30 @@ struct RingWorld : World {
 		uint8_t ser = 1;
 		for (int i = 0; i < 12; ++i) {
 			x = x * 1664525u + 1013904223u;
-			unsigned k = (x >> 24) % 5; size_t n = 1 + (x >> 16) % 9;
+			unsigned k = (x >> 24) % 7; size_t n = 1 + (x >> 16) % 9;
 			uint8_t buf[16];
+			if (k >= 5) {
+				// the I/O device face of the queue: write appends blocks, read takes blocks off the end (that is what mpt_qpop does)
+				size_t part = 1 + (x >> 8) % 4, cnt = 1 + (x >> 12) % 4; uint8_t big[16];
+				if (k == 5) {
+					for (size_t j = 0; j < part * cnt; ++j) big[j] = ser++ ? ser : ++ser;
+					ssize_t w; uint64_t fired; { Sut s(i == 3 ? failn : 0); w = cq->write(cnt, big, part); fired = g.fired; }
+					if (fired) st.hit("fault:allocfail");
+					log.ev("  cxx write %zu x %zu -> %zd%s", cnt, part, w, fired ? " allocfail" : "");
+					if (w < 0 || (size_t) w > cnt) fail("content", "C++ queue write of %zu blocks reports %zd", cnt, w);
+					if ((size_t) w < cnt && !fired) fail("refused-valid", "C++ queue write of %zu blocks of %zu bytes took only %zd without allocation fault", cnt, part, w);
+					d.insert(d.end(), big, big + (size_t) w * part);
+				} else {
+					memset(big, 0xCC, sizeof big);
+					ssize_t r; { Sut s; r = cq->read(cnt, big, part); }
+					log.ev("  cxx read %zu x %zu -> %zd (stored %zu)", cnt, part, r, d.size());
+					size_t can = std::min(cnt, d.size() / part);
+					if (r < 0 || (size_t) r != can) fail("read", "C++ queue read of %zu blocks of %zu bytes returned %zd with %zu bytes stored", cnt, part, r, d.size());
+					for (size_t b = 0; b < can; ++b) { for (size_t j = 0; j < part; ++j) { uint8_t w = d[d.size() - part + j]; if (big[b * part + j] != w) fail("read", "C++ queue read block %zu byte %zu is %02x, the stored byte is %02x", b, j, big[b * part + j], w); } d.erase(d.end() - (ptrdiff_t) part, d.end()); }
+				}
+				if (cq->_d.len != d.size()) fail("content", "C++ queue holds %zu bytes, a deque would hold %zu", cq->_d.len, d.size());
+				continue;
+			}
 			if (k == 0 || k == 1) {
 				for (size_t j = 0; j < n; ++j) buf[j] = ser++ ? ser : ++ser;
 				bool ok; uint64_t fired;
